@@ -335,6 +335,7 @@ class Interp(object):
         self.nonneg = set()
         self.col_base = {}
         self.entry_writes = []
+        self.class_state = {}      # (class, attribute node) -> the one shared value of a class-level attribute
         self.module_state = {}     # (module name, global name) -> value written through a `global` declaration
         self.label_alias = {}
         self.decided = {}
@@ -838,7 +839,9 @@ class Interp(object):
             if c.is_false():
                 return False
             if v.kind == 'array':
-                raise Unsupported('truth value of an array condition', node)
+                # `if <array condition>:` -- numpy refuses to reduce an array of more than one element to a bool
+                raise Raised('ValueError', 'The truth value of an array with more than one element is ambiguous (%s)' % c.show(),
+                             self.loc(node))
             if ask:
                 return self.decide(c, node)
             return None
@@ -1377,6 +1380,17 @@ class Interp(object):
         raise Unsupported('attribute %s of %r' % (name, o), node)
 
     def eval_class_attr(self, cls, vnode):
+        # a class attribute is ONE object shared by all instances (a class-level dict used as a cache keeps its contents
+        # from one instance to the next): evaluated once per interpreter
+        key = (cls.qualname, id(vnode))
+        if key in self.class_state:
+            return self.class_state[key]
+        v = self._eval_class_attr(cls, vnode)
+        if isinstance(v, (Obj, Seq, Arr)):
+            self.class_state[key] = v
+        return v
+
+    def _eval_class_attr(self, cls, vnode):
         fake = Func(ast.Lambda(args=ast.arguments(posonlyargs=[], args=[], kwonlyargs=[], kw_defaults=[],
                                                   defaults=[]), body=vnode), None, cls.module, None, cls)
         self.frames.append(Frame(fake, Env()))
